@@ -1,10 +1,16 @@
 package c16
 
 import (
+	"os"
 	"testing"
 
 	"verifharness/vt"
 )
 
-func TestProp(t *testing.T)   { vt.RunAll(t, 2000) }
+func TestProp(t *testing.T) {
+	if s := os.Getenv("VERIF_SHARD"); s == "" || s == "0" {
+		probeNativeNoCall()
+	}
+	vt.RunAll(t, 2000)
+}
 func TestReplay(t *testing.T) { vt.ReplayAll(t) }
